@@ -135,7 +135,8 @@ def ensure_model():
     """Extract the model and build mlrun/avmodel (cached on the hash of the model sources)."""
     gen = os.path.join(CACHE, "mlrun")
     os.makedirs(gen, exist_ok=True)
-    key = tree_hash([os.path.join(COQ, "AV", "Model"), os.path.join(COQ, "AV", "Extract"), MLRUN], (".v", ".ml"))
+    key = tree_hash([os.path.join(COQ, "AV", "Model"), os.path.join(COQ, "AV", "Spec"), os.path.join(COQ, "AV", "Proofs"),
+                     os.path.join(COQ, "AV", "Extract"), MLRUN], (".v", ".ml"))
     stamp = os.path.join(gen, "stamp")
     exe = os.path.join(gen, "avmodel")
     if os.path.exists(exe) and os.path.exists(stamp) and open(stamp).read() == key:
@@ -207,6 +208,25 @@ def parse_trace(path):
     return res
 
 RAN = set()    # ids of the cases the last run_batches handed to a harness binary
+SPEC = {}      # case id -> per step: the list specification's prediction (dict) or None (step outside the proven fragment)
+
+def parse_spec(path):
+    res = {}
+    if not os.path.exists(path):
+        return res
+    for line in open(path):
+        toks = line.rstrip("\n").split(" ")
+        if len(toks) < 3:
+            continue
+        if toks[2] == "-":
+            res.setdefault(toks[0], []).append(None)
+            continue
+        d = {}
+        for t in toks[2:]:
+            k, _, v = t.partition("=")
+            d[k] = v
+        res.setdefault(toks[0], []).append(d)
+    return res
 
 def run_batches(cases, model_exe, routing, bindirs, workdir, tag):
     """cases: list of (case_id, cfg, steps). Writes case files grouped by (binary,
@@ -216,6 +236,7 @@ def run_batches(cases, model_exe, routing, bindirs, workdir, tag):
     from . import gen
     groups = {}
     RAN.clear()
+    SPEC.clear()
     for cid, cfg, steps in cases:
         b = routing.get(cfg_key(cfg))
         if b is None:
@@ -267,7 +288,7 @@ def run_batches(cases, model_exe, routing, bindirs, workdir, tag):
         return traces, died
     def run_one(job):
         b, prof, base = job
-        r1 = subprocess.run([model_exe, base + ".case", base + ".model"], stdout=subprocess.PIPE, stderr=subprocess.STDOUT, text=True)
+        r1 = subprocess.run([model_exe, base + ".case", base + ".model", base + ".spec"], stdout=subprocess.PIPE, stderr=subprocess.STDOUT, text=True)
         exe = os.path.join(bindirs[prof], b)
         lines = [l for l in open(base + ".case").read().split("\n") if l]
         traces, died = run_impl(exe, lines, base)
@@ -279,6 +300,7 @@ def run_batches(cases, model_exe, routing, bindirs, workdir, tag):
             if rc1 != 0:
                 raise ToolBroken("model run failed on %s:\n%s" % (base, o1[-2000:]))
             model.update(parse_trace(base + ".model"))
+            SPEC.update(parse_spec(base + ".spec"))
             for d in died:
                 crashed.append((base,) + d)
             impl.update(traces)
